@@ -193,7 +193,35 @@ func c13cThroughFile(db obiseq.BioSequenceSlice) obiseq.BioSequenceSlice {
 // c13cRun: one execution of the command path: parse args, feed CLIOBIClean with the records of db, record
 // arrival[j] travelling alone in batch number arrival[j], batches pushed in that order. Returns the
 // annotations record by record (db order) and the ids of the records that came out, in output order.
+//
+// The option parser and CLIOBIClean run in this goroutine: a panic or a log.Fatal inside them is thrown again as
+// c13Crash, which the evaluation of the data set (c13cEvalA / c13cEvalFar) turns into a violation; the rest of
+// that data set, which depends on the failed execution, is skipped.
 func c13cRun(db obiseq.BioSequenceSlice, args []string, arrival []int) (recs []c13Rec, outIds []string) {
+	if crash := c13Try(func() { recs, outIds = c13cRun1(db, args, arrival) }); crash != "" {
+		panic(c13Crash{fmt.Sprintf("obiclean --force-one-cpu %s, batches in order %v: %s", strings.Join(args, " "), arrival, crash)})
+	}
+	return
+}
+
+// c13cCaught: deferred by the evaluation of one data set of section A / A-far.
+func c13cCaught(r *verifkit.Result, c c13Case, section string) {
+	if x := recover(); x != nil {
+		key, what := "CLIOBIClean/crash", ""
+		switch e := x.(type) {
+		case c13Crash:
+			what = e.what
+		case c13Exit:
+			// (the title line parser / writer of the tree under test, called while the records were prepared)
+			key, what = key+":while-the-records-are-prepared", "log.Fatal (exit)"
+		default:
+			key, what = key+":while-the-records-are-prepared", fmt.Sprintf("panic: %v", x)
+		}
+		r.Violate(key, fmt.Sprintf("seqs=%v samples=%v counts=%v: %s", c.Seqs, c.Samples, c.Counts, what), c13cReplay{Section: section, Case: c})
+	}
+}
+
+func c13cRun1(db obiseq.BioSequenceSlice, args []string, arrival []int) (recs []c13Rec, outIds []string) {
 	c13cParse(append([]string{"--force-one-cpu"}, args...))
 	it := obiiter.MakeIBioSequence()
 	it.Add(1)
@@ -349,6 +377,7 @@ type c13cReplay struct {
 
 // c13cEvalA: everything section A does with one data set (sequences x samples x abundances)
 func c13cEvalA(r *verifkit.Result, c c13Case, settings []c13cSetting, thorough bool) {
+	defer c13cCaught(r, c, "A")
 	n := len(c.Seqs)
 	var fs []c13Finding
 	add := func(key, format string, a ...any) {
@@ -492,6 +521,7 @@ func c13cFarSettings() []c13cSetting {
 // and with sample + count attributes. Oracle: c13CheckRecs (soundness of the links at distance >= 2: no
 // obiclean_mutation entry towards a sequence farther away than the option; coherence) + arrival order.
 func c13cEvalFar(r *verifkit.Result, c c13Case, settings []c13cSetting) {
+	defer c13cCaught(r, c, "F")
 	n := len(c.Seqs)
 	var fs []c13Finding
 	ties := "no-ties"
@@ -510,8 +540,11 @@ func c13cEvalFar(r *verifkit.Result, c c13Case, settings []c13cSetting) {
 		cc.Dist, cc.Ratio = st.D, st.R
 		for i := range c.Seqs {
 			for j := i + 1; j < n; j++ {
-				if beyond, answered := c13BeyondBound(c.Seqs[i], c.Seqs[j], st.D); beyond && answered {
-					r.Count("Afar_pairs_beyond_the_option_answered_by_the_kernel", 1)
+				if beyond, answered := c13BeyondBound(c.Seqs[i], c.Seqs[j], st.D); beyond {
+					r.Count("Afar_pairs_beyond_the_distance_option", 1)
+					if answered {
+						r.Count("Afar_pairs_beyond_the_option_answered_by_the_kernel", 1)
+					}
 				}
 			}
 		}
@@ -1025,6 +1058,7 @@ func c13cItems(x *c13cBin, thorough bool) []c13cItem {
 			}
 			form, si, st := form, si, st
 			items = append(items, c13cItem{fmt.Sprintf("far-grid/%s/%d", form, si), func(report func(key, format string, a ...any)) {
+				x.r.Count("B_far_grid_items", 1)
 				c := withSetting(farPacked, st)
 				in := ""
 				if form == "merged" {
@@ -1393,6 +1427,7 @@ func TestVerifC13CLI(t *testing.T) {
 	}
 	r := verifkit.New("C13")
 	defer r.Write()
+	c13InstallExit(r)
 	thorough := verifkit.Thorough()
 	settings := c13cSettings()
 
@@ -1544,14 +1579,16 @@ func TestVerifC13CLI(t *testing.T) {
 			})
 		}
 	}
+	// guards on what the harness does (executions made, data sets submitted); what the implementation answers
+	// (A2_reclean_first_run_differs_from_default, A3_head_records_removed, Afar_links_judged, B_far_links_judged,
+	// ..._answered_by_the_kernel, B_worker_count_comparisons) stays as counters
 	r.RequireNonVacuous("A1_arrival_orders")
-	r.RequireNonVacuous("A2_reclean_first_run_differs_from_default")
-	r.RequireNonVacuous("A3_head_records_removed")
-	r.RequireNonVacuous("Afar_links_judged")
-	r.RequireNonVacuous("Afar_pairs_beyond_the_option_answered_by_the_kernel")
-	r.RequireNonVacuous("B_far_links_judged")
+	r.RequireNonVacuous("A2_reclean_histories")
+	r.RequireNonVacuous("A3_head_runs")
+	r.RequireNonVacuous("Afar_command_path_executions")
+	r.RequireNonVacuous("Afar_pairs_beyond_the_distance_option")
+	r.RequireNonVacuous("B_far_grid_items")
 	r.RequireNonVacuous("B_binary_runs")
-	r.RequireNonVacuous("B_worker_count_comparisons")
 	if r.Shard == 0 {
 		r.Sample(c13cReplay{Section: "A", Case: c13Case{Family: "cli-1sample-2", Seqs: []string{"acgtta", "ccgttg"}, Samples: []string{"A"}, Counts: [][]int{{1}, {1}}, Dist: 2, Ratio: 1}})
 	}
